@@ -708,6 +708,8 @@ impl<'a> Gen<'a> {
         match self.r.below(10) {
             0 => { let w = self.var(); format!("BOUND(?{v}) {} {}BOUND(?{w})", self.r.ps(&["||", "&&"]), self.r.ps(&["", "!"])) }
             1 => format!("!({})", self.atom_expr(&v)),
+            // operands that may raise a type error (IRI < number, unbound variable): section 17.2 three-valued logic
+            2 | 3 => { let w = self.var(); let (a, b) = (self.atom_expr(&v), self.atom_expr(&w)); format!("({a}) {} ({b})", self.r.ps(&["||", "&&"])) }
             _ => self.atom_expr(&v),
         }
     }
